@@ -227,6 +227,7 @@ pub fn cmd_boundary(m: &BTreeMap<String, String>) -> i32 {
         "cycle32" => cycle32(&mut v, &mut facts, false),
         "cycle32arch" => cycle32(&mut v, &mut facts, true),
         "large" => crate::boundary_large::large(&mut v, &mut facts),
+        "epochs" => crate::boundary_epochs::epochs(&mut v, &mut facts),
         _ => {
             eprintln!("unknown boundary kind");
             return 2;
